@@ -99,6 +99,7 @@ TRANSPORTS = {
         reader={'Drain'},
         silent={'Drain', 'Ret'},
         skip={'Ret'},
+        max_per_rep=400,    # thorough tier: 16 M single-call paths; at most 400 (drawn uniformly) out of every inter-call state
     ),
 }
 
@@ -137,11 +138,13 @@ def projection(st, maxunits):
             maxunits - st['written'])
 
 
-def schedules_from_graph(g, maxunits, reader_names, inter, include_blocked=False, skip=()):
+def schedules_from_graph(g, maxunits, reader_names, inter, include_blocked=False, skip=(), max_per_rep=None, rng=None):
     """For every distinct inter-call state (by projection): a shortest prefix from the initial
     state, then every path through one more call until it returns (or blocks); reader actions are
     abstracted to a marker ('R',), peer actions keep their label.  Returns the distinct schedules as
-    (initial state, schedule, projection of the inter-call state the last call starts from)."""
+    (initial state, schedule, projection of the inter-call state the last call starts from).
+    max_per_rep: an inter-call state with more single-call paths than this contributes that many, drawn uniformly
+    from its paths (the paths of one call form a DAG: they are counted, then sampled by weighted descent)."""
     parent = {i0: None for i0 in g.init}
     order = list(g.init)
     for n in order:
@@ -167,6 +170,7 @@ def schedules_from_graph(g, maxunits, reader_names, inter, include_blocked=False
     seen = set()
     out = []
     npaths = 0
+    cnt_memo = {}
     for proj, n in reps.items():
         prefix = []
         m = n
@@ -211,10 +215,64 @@ def schedules_from_graph(g, maxunits, reader_names, inter, include_blocked=False
                 dfs(d, acc)
                 if it is not None:
                     acc.pop()
-        for lab, d in g.edges[n]:
-            if lab.startswith('CallStart'):
-                dfs(d, [item(lab)])
+        starts = [(lab, d) for lab, d in g.edges[n] if lab.startswith('CallStart')]
+        if max_per_rep is not None and not include_blocked:
+            total = sum(count_paths(g, d, cnt_memo) for lab, d in starts)
+            if total > max_per_rep:
+                npaths += total
+                got = 0
+                tries = 0
+                while got < max_per_rep and tries < 4 * max_per_rep:
+                    tries += 1
+                    lab, node = weighted(rng, starts, lambda x: count_paths(g, x[1], cnt_memo))
+                    acc = [item(lab)]
+                    while g.nodes[node]['pc'] != 'idle':
+                        outs = [(l, d) for l, d in g.edges[node] if d != node]
+                        l, node = weighted(rng, outs, lambda x: count_paths(g, x[1], cnt_memo))
+                        it = item(l)
+                        if it is not None:
+                            acc.append(it)
+                    key = json.dumps([root, pre + acc])
+                    if key not in seen:
+                        seen.add(key)
+                        out.append((root, pre + acc, proj))
+                        got += 1
+                continue
+        for lab, d in starts:
+            dfs(d, [item(lab)])
     return out, len(reps), npaths
+
+
+def count_paths(g, node, memo):
+    """number of paths from `node` to the end of the call (iterative: the graphs are deep)"""
+    stack = [node]
+    while stack:
+        n = stack[-1]
+        if n in memo:
+            stack.pop()
+            continue
+        if g.nodes[n]['pc'] == 'idle':
+            memo[n] = 1
+            stack.pop()
+            continue
+        outs = [d for l, d in g.edges[n] if d != n]
+        todo = [d for d in outs if d not in memo]
+        if todo:
+            stack.extend(todo)
+            continue
+        memo[n] = sum(memo[d] for d in outs)
+        stack.pop()
+    return memo[node]
+
+
+def weighted(rng, items, weight):
+    ws = [weight(x) for x in items]
+    r = rng.random() * sum(ws)
+    for x, w_ in zip(items, ws):
+        r -= w_
+        if r < 0:
+            return x
+    return [x for x, w_ in zip(items, ws) if w_][-1]
 
 
 def replay_one(args):
@@ -407,8 +465,9 @@ def run_transport(ctx, pool, transport, include_blocked=False):
         if not any(l.startswith('Reap') for es in g.edges.values() for l, d in es):
             raise tlc.TLCError('PopenRead: Reap never taken (vacuous run)')
     reader = T.get('reader') or set().union(*T['kinds'].values())
-    scheds, nstates, npaths = schedules_from_graph(g, maxunits, reader, T['inter'], include_blocked, skip=T.get('skip', ()))
     rng = random.Random(ctx.seed * 31 + 5)
+    scheds, nstates, npaths = schedules_from_graph(g, maxunits, reader, T['inter'], include_blocked, skip=T.get('skip', ()),
+                                                   max_per_rep=None if quick else T.get('max_per_rep'), rng=rng)
     cap = T['cap'](quick) if 'cap' in T else (3000 if quick else 60000) // T['variants']
     if len(scheds) > cap:
         # stratified: the same number of single-call paths out of every inter-call state (as far as it has that many)
